@@ -35,6 +35,11 @@ var c02Fixed = []struct{ prog, want, trace string }{
 	{"(defn mk [] [[0 0 0 0 0 0 0 0] 1]) (def a (mk)) (aset (aget a 0) 0 5) (aget (aget (mk) 0) 0)", "0", ""},
 	{"(def out []) (for [(def i 0) (< i 3) (def i (+ i 1))] (def row [0 0 0 0 0 0 0 0]) (aset row i 1) (set out (append out row))) out", "[[1 0 0 0 0 0 0 0] [0 1 0 0 0 0 0 0] [0 0 1 0 0 0 0 0]]", ""},
 	{"(defn f [a & r] (len r)) (list (f 1) (f 1 2) (f 1 2 3)) | (f)", "(0 1 2)|ERR", ""},
+	{"(defn mk [] {}) (def a (mk)) (hset a k: 1) (list (len a) (len (mk)) (len {}))", "(1 0 0)", ""},
+	{"(def out []) (for [(def i 0) (< i 3) (def i (+ i 1))] (def h {}) (hset h i i) (set out (append out (len h)))) out", "[1 1 1]", ""},
+	{"(defn mk [] []) (def a (mk)) (def b (append a 1)) (list (len (mk)) (len b))", "(0 1)", ""},
+	{"(def h (hash a: 1 c: 3 7 4 \"s\" 5)) (def ks []) (range k v h (set ks (append ks (str k)))) ks", `["a" "c" "7" "\"s\""]`, ""},
+	{"(def h (hash a: 1 7 4)) {ks := []; for k, v := range h { ks = (append ks (str k)) }; ks}", `["a" "7"]`, ""},
 	{"(def u (append [0 3] 3)) (def x (append u 7)) (def y (append u -2)) (list x y u)", "([0 3 3 7] [0 3 3 -2] [0 3 3])", ""},
 	{"(def u [1 2]) (def x (concat u [3])) (def y (concat u [4] [5])) (aset u 0 9) (list u x y)", "([9 2] [1 2 3] [1 2 4 5])", ""},
 }
